@@ -79,6 +79,7 @@ type Call struct {
 	D uint64            `json:"sign_counter_delta"`
 	R string            `json:"result"` // ok | notfound | invalid | err | timeout
 	E string            `json:"error,omitempty"`
+	Q string            `json:"request,omitempty"` // the method string as sent, when it differs from the resolved method
 }
 
 type TransportOut struct {
@@ -95,12 +96,20 @@ type FakeCaller struct {
 	SignRegistered bool   `json:"sign_registered"`
 }
 
+// MergeCase: a sequence of RegisterName calls made from one look-alike caller on a fresh server
+type MergeCase struct {
+	Caller  string   `json:"caller"`
+	Seq     string   `json:"seq"`     // model syntax: ns:recv:M1,M2 ns:recv:M3 ...
+	Listing []string `json:"listing"` // ns_wire|recv of the callbacks registered afterwards (sorted)
+}
+
 type ChildOut struct {
 	Flags      map[string]bool          `json:"flags"`
 	Unlocked   string                   `json:"unlocked"`
 	Locked     string                   `json:"locked"`
 	Transports map[string]*TransportOut `json:"transports"`
 	Fake       []FakeCaller             `json:"fake_callers"`
+	Merge      []MergeCase              `json:"merge_cases"`
 	Universe   int                      `json:"universe"`
 	Error      string                   `json:"error,omitempty"`
 }
@@ -110,65 +119,126 @@ type ChildOut struct {
 // look-alike callers of RegisterName: what matters to RegisterName is only the caller's function name
 type fakeCaller struct{}
 
-type ToySvc struct{}
+// toy services: protected and unprotected names, overlapping method names across services
+type ToyA struct{}
 
-func (ToySvc) Sign() string  { return "toy" }
-func (ToySvc) Other() string { return "toy" }
+func (ToyA) Sign() string  { return "a" }
+func (ToyA) Alpha() string { return "a" }
+
+type ToyB struct{}
+
+func (ToyB) Sign() string            { return "b" }
+func (ToyB) Beta() string            { return "b" }
+func (ToyB) SendTransaction() string { return "b" }
+
+type ToyC struct{}
+
+func (ToyC) Alpha() string                  { return "c" }
+func (ToyC) SignAndSendTransaction() string { return "c" }
+func (ToyC) SignTransaction() string        { return "c" }
+
+type toyReg struct {
+	ns  string
+	svc interface{}
+}
+
+func toySpec(r toyReg) string {
+	t := reflect.TypeOf(r.svc)
+	var ms []string
+	for i := 0; i < t.NumMethod(); i++ {
+		ms = append(ms, t.Method(i).Name)
+	}
+	return r.ns + ":" + t.String() + ":" + strings.Join(ms, ",")
+}
+
+var toySeqs = [][]toyReg{
+	{{"toy", ToyA{}}},
+	{{"toy", ToyA{}}, {"toy", ToyB{}}},                                         // merge into an existing namespace: the merged set must be filtered too
+	{{"toy", ToyB{}}, {"toy", ToyA{}}},                                         // the other order
+	{{"toy", ToyA{}}, {"toy", ToyC{}}},                                         // later registration overrides Alpha
+	{{"toy", ToyC{}}, {"toy2", ToyB{}}, {"toy", ToyA{}}, {"toy2", ToyC{}}},     // interleaved namespaces
+	{{"aqua", ToyB{}}, {"eth", ToyB{}}, {"personal", ToyC{}}, {"xyz", ToyC{}}}, // filtering must not depend on the namespace
+}
 
 func ownName() string {
 	pc, _, _, _ := runtime.Caller(1)
 	return runtime.FuncForPC(pc).Name()
 }
 
-func toyResult(s *rpc.Server) bool {
+func toyListing(s *rpc.Server) []string {
+	var l []string
 	for _, m := range s.VerifListMethods() {
-		if m.Namespace == "toy" && m.Name == "sign" {
-			return true
+		if m.Namespace != rpc.MetadataApi && !m.Subscription {
+			l = append(l, m.Namespace+"_"+m.Name+"|"+m.Recv.String())
 		}
 	}
-	return false
+	sort.Strings(l)
+	return l
+}
+
+func toySeqString(seq []toyReg) string {
+	var p []string
+	for _, r := range seq {
+		p = append(p, toySpec(r))
+	}
+	return strings.Join(p, " ")
+}
+
+// look-alike callers of RegisterName: what matters to RegisterName is only the caller's function name.
+// Each registers the sequence on a fresh server (RegisterName is called directly from the function body).
+
+//go:noinline
+func (fakeCaller) startIPC(seq []toyReg) MergeCase {
+	s := rpc.NewServer()
+	for _, r := range seq {
+		s.RegisterName(r.ns, r.svc)
+	}
+	return MergeCase{ownName(), toySeqString(seq), toyListing(s)}
 }
 
 //go:noinline
-func (fakeCaller) startIPC() FakeCaller {
+func (fakeCaller) startWS(seq []toyReg) MergeCase {
 	s := rpc.NewServer()
-	s.RegisterName("toy", ToySvc{})
-	return FakeCaller{ownName(), toyResult(s)}
+	for _, r := range seq {
+		s.RegisterName(r.ns, r.svc)
+	}
+	return MergeCase{ownName(), toySeqString(seq), toyListing(s)}
 }
 
 //go:noinline
-func (fakeCaller) startWS() FakeCaller {
+func (fakeCaller) xstartIPC(seq []toyReg) MergeCase {
 	s := rpc.NewServer()
-	s.RegisterName("toy", ToySvc{})
-	return FakeCaller{ownName(), toyResult(s)}
+	for _, r := range seq {
+		s.RegisterName(r.ns, r.svc)
+	}
+	return MergeCase{ownName(), toySeqString(seq), toyListing(s)}
 }
 
 //go:noinline
-func (fakeCaller) xstartIPC() FakeCaller {
+func startHTTP(seq []toyReg) MergeCase {
 	s := rpc.NewServer()
-	s.RegisterName("toy", ToySvc{})
-	return FakeCaller{ownName(), toyResult(s)}
+	for _, r := range seq {
+		s.RegisterName(r.ns, r.svc)
+	}
+	return MergeCase{ownName(), toySeqString(seq), toyListing(s)}
 }
 
 //go:noinline
-func startHTTP() FakeCaller {
+func startInProc(seq []toyReg) MergeCase {
 	s := rpc.NewServer()
-	s.RegisterName("toy", ToySvc{})
-	return FakeCaller{ownName(), toyResult(s)}
+	for _, r := range seq {
+		s.RegisterName(r.ns, r.svc)
+	}
+	return MergeCase{ownName(), toySeqString(seq), toyListing(s)}
 }
 
 //go:noinline
-func startInProc() FakeCaller {
+func startInProcess(seq []toyReg) MergeCase {
 	s := rpc.NewServer()
-	s.RegisterName("toy", ToySvc{})
-	return FakeCaller{ownName(), toyResult(s)}
-}
-
-//go:noinline
-func startInProcess() FakeCaller {
-	s := rpc.NewServer()
-	s.RegisterName("toy", ToySvc{})
-	return FakeCaller{ownName(), toyResult(s)}
+	for _, r := range seq {
+		s.RegisterName(r.ns, r.svc)
+	}
+	return MergeCase{ownName(), toySeqString(seq), toyListing(s)}
 }
 
 type variant struct {
@@ -347,10 +417,13 @@ func childMain(specPath string) {
 
 	// universe of callbacks: every API in startRPC's list, later registrations override earlier ones
 	universe := map[string]rpc.VerifMethod{}
+	subUniverse := map[string]rpc.VerifMethod{} // key ns_subscribe:wire
 	add := func(ms []rpc.VerifMethod) {
 		for _, m := range ms {
 			if !m.Subscription {
 				universe[m.Namespace+"_"+m.Name] = m
+			} else {
+				subUniverse[m.Namespace+"_subscribe:"+m.Name] = m
 			}
 		}
 	}
@@ -363,7 +436,27 @@ func childMain(specPath string) {
 		names = append(names, n)
 	}
 	sort.Strings(names)
-	out.Universe = len(names)
+	// request-name aliases the JSON layer knows for SINGLE requests: eth_X -> aqua_X, X -> btc_X
+	aliases := map[string]rpc.VerifMethod{}
+	for n, m := range universe {
+		if strings.HasPrefix(n, "aqua_") {
+			aliases["eth_"+n[len("aqua_"):]] = m
+		}
+		if strings.HasPrefix(n, "btc_") {
+			aliases[n[len("btc_"):]] = m
+		}
+	}
+	var aliasNames []string
+	for n := range aliases {
+		aliasNames = append(aliasNames, n)
+	}
+	sort.Strings(aliasNames)
+	var subNames []string
+	for n := range subUniverse {
+		subNames = append(subNames, n)
+	}
+	sort.Strings(subNames)
+	out.Universe = len(names) + len(subNames)
 
 	handlers := env.Stack.VerifHandlers()
 	for _, tr := range transports {
@@ -421,7 +514,11 @@ func childMain(specPath string) {
 			t0 := time.Now()
 			ctx, cancel := context.WithTimeout(context.Background(), 8*time.Second)
 			var res json.RawMessage
-			err := cl.CallContext(ctx, &res, name, args...)
+			rpcName := name
+			if i := strings.Index(name, "_subscribe:"); i >= 0 {
+				rpcName = name[:i] + "_subscribe"
+			}
+			err := cl.CallContext(ctx, &res, rpcName, args...)
 			cancel()
 			if r0, _ := classify(err); wait > 0 && r0 != "notfound" && r0 != "invalid" { // asynchronous signing (block sealing): poll the counter
 				deadline := time.Now().Add(wait)
@@ -516,10 +613,117 @@ func childMain(specPath string) {
 				doCall(name, v.label, params, w)
 			}
 		}
+		if !sc.ListOnly && sc.Only == nil && !sc.Clique {
+			plain := variant{"unlocked/right-pass", env.Unlocked, env.Locked, c18node.PassUnlocked}
+			paramsOf := func(m rpc.VerifMethod) []json.RawMessage {
+				var params []json.RawMessage
+				for _, t := range m.ArgTypes {
+					pb, err := json.Marshal(genArg(t, m, plain))
+					if err != nil {
+						pb = []byte("null")
+					}
+					params = append(params, pb)
+				}
+				return params
+			}
+			// subscriptions: <ns>_subscribe with the subscription name as first parameter
+			for _, sn := range subNames {
+				m := subUniverse[sn]
+				nm, _ := json.Marshal(m.Name)
+				params := append([]json.RawMessage{nm}, paramsOf(m)...)
+				doCall(sn, "subscribe", params, 0)
+			}
+			// the aliases as single requests
+			callable := map[string]rpc.VerifMethod{}
+			for n, m := range universe {
+				callable[n] = m
+			}
+			for _, an := range aliasNames {
+				callable[an] = aliases[an]
+				if _, skip := neverCall["aqua_"+strings.TrimPrefix(an, "eth_")]; skip {
+					continue
+				}
+				doCall(an, "alias", paramsOf(aliases[an]), 0)
+			}
+			// batch requests: every callback and every alias once more, inside JSON-RPC batches
+			// (parseBatchRequest / Server.execBatch path)
+			var bnames []string
+			for _, name := range names {
+				if _, skip := neverCall[name]; !skip {
+					bnames = append(bnames, name)
+				}
+			}
+			bnames = append(bnames, aliasNames...)
+			runBatch := func(chunk []string, label string) uint64 {
+				elems := make([]rpcclient.BatchElem, len(chunk))
+				ps := make([][]json.RawMessage, len(chunk))
+				for i, name := range chunk {
+					ps[i] = paramsOf(callable[name])
+					args := make([]interface{}, len(ps[i]))
+					for j, p := range ps[i] {
+						args[j] = p
+					}
+					elems[i] = rpcclient.BatchElem{Method: name, Args: args, Result: new(json.RawMessage)}
+				}
+				before := keystore.VerifSignCount()
+				ctx, cancel := context.WithTimeout(context.Background(), 20*time.Second)
+				err := cl.BatchCallContext(ctx, elems)
+				cancel()
+				delta := keystore.VerifSignCount() - before
+				for i, name := range chunk {
+					e := elems[i].Error
+					if err != nil {
+						e = err
+					}
+					r, es := classify(e)
+					d := uint64(0)
+					if len(chunk) == 1 {
+						d = delta
+					}
+					to.Calls = append(to.Calls, Call{M: name, V: label, P: ps[i], D: d, R: r, E: es})
+				}
+				if env.Aqua.IsMining() {
+					env.Aqua.StopMining()
+				}
+				restore()
+				return delta
+			}
+			const chunkSize = 24
+			for i := 0; i < len(bnames); i += chunkSize {
+				j := i + chunkSize
+				if j > len(bnames) {
+					j = len(bnames)
+				}
+				chunk := bnames[i:j]
+				if d := runBatch(chunk, "batch"); d > 0 {
+					// attribute: every element again as a batch of one
+					var sum uint64
+					for _, name := range chunk {
+						sum += runBatch([]string{name}, "batch-of-one")
+					}
+					if sum == 0 {
+						to.Calls = append(to.Calls, Call{M: "batch:" + strings.Join(chunk, "+"), V: "batch", D: d, R: "ok"})
+					}
+				}
+			}
+		}
 		cl.Close()
 	}
 	f := fakeCaller{}
-	out.Fake = []FakeCaller{f.startIPC(), f.startWS(), f.xstartIPC(), startHTTP(), startInProc(), startInProcess()}
+	for _, seq := range toySeqs {
+		for _, mc := range []MergeCase{f.startIPC(seq), f.startWS(seq), f.xstartIPC(seq), startHTTP(seq), startInProc(seq), startInProcess(seq)} {
+			out.Merge = append(out.Merge, mc)
+			if len(seq) == 1 {
+				signed := false
+				for _, e := range mc.Listing {
+					if strings.HasPrefix(e, "toy_sign|") {
+						signed = true
+					}
+				}
+				out.Fake = append(out.Fake, FakeCaller{mc.Caller, signed})
+			}
+		}
+	}
 	emit()
 	done := make(chan struct{})
 	go func() { env.Stop(); close(done) }()
@@ -659,6 +863,9 @@ func evaluate(c *vh.Ctx, m *vh.Model, sc Scenario, out *ChildOut) {
 	for _, fk := range out.Fake {
 		c.Correspond("RegisterName(caller name)~is_allowed", "flags="+flags+" caller="+fk.Name, bit(fk.SignRegistered), m.Ask("allowed "+flags+" "+fk.Name))
 	}
+	for _, mc := range out.Merge {
+		c.Correspond("RegisterName sequence (new/merge/override)~register_all", "flags="+flags+" caller="+mc.Caller+" seq="+mc.Seq, strings.Join(mc.Listing, ","), m.Ask("regseq "+flags+" "+mc.Caller+" "+mc.Seq))
+	}
 	for _, tr := range transports {
 		to := out.Transports[tr]
 		if to == nil || !to.Up {
@@ -680,6 +887,8 @@ func evaluate(c *vh.Ctx, m *vh.Model, sc Scenario, out *ChildOut) {
 					if len(f) == 4 {
 						if f[2] == "0" {
 							signs[f[0]] = f[3]
+						} else if i := strings.Index(f[0], "_"); i > 0 {
+							signs[f[0][:i]+"_subscribe:"+f[0][i+1:]] = f[3]
 						}
 						ms = append(ms, f[0]+"|"+f[1]+"|"+f[2])
 					}
@@ -705,19 +914,57 @@ func evaluate(c *vh.Ctx, m *vh.Model, sc Scenario, out *ChildOut) {
 			if call.D > 0 {
 				class += "/signed"
 			}
+			switch {
+			case strings.HasPrefix(call.V, "batch"):
+				class += "/batch"
+			case call.V == "subscribe":
+				class += "/subscribe"
+			case call.V == "alias":
+				class += "/alias"
+			}
 			c.Eval(class, fmt.Sprintf("%s|%s|%s|%s|%v", sc.Name, tr, call.M, call.V, call.D > 0))
-			// the wire agrees with the registry listing: unserved <=> method-not-found
+			if strings.HasPrefix(call.M, "batch:") {
+				// a batch moved the counter but no single element did when re-sent alone
+				c.Correspond("keystore counter moved => m_signs", sc.Name+" "+tr+" "+call.M, "attributable", "unattributed")
+				if !optedIn {
+					worst[call.M] = call
+				}
+				continue
+			}
+			// what the model says this request resolves to (json.go parse + server.go readRequest)
+			isBatch := strings.HasPrefix(call.V, "batch")
+			rreq := fmt.Sprintf("resolve %s %s %s %s %s %s %s ", chainOf(sc), flags, tr, hm, wm, bit(sc.WSExposeAll), bit(isBatch))
+			if i := strings.Index(call.M, "_subscribe:"); i >= 0 {
+				rreq += call.M[:i] + "_subscribe " + call.M[i+len("_subscribe:"):]
+			} else {
+				rreq += call.M
+			}
+			rans := m.Ask(rreq)
+			rf := strings.Fields(rans)
+			resolvedName, sb := call.M, "unresolved"
+			if len(rf) == 2 {
+				if ef := strings.Split(rf[1], "|"); len(ef) == 3 {
+					resolvedName, sb = ef[0], ef[2]
+				}
+			}
 			if sc.Only == nil {
-				c.Correspond("wire:method-not-found~not in gen_exposed", sc.Name+" "+tr+" "+call.M, bit(call.R != "notfound"), bit(signs[call.M] != ""))
+				kind := "wire"
+				switch {
+				case isBatch:
+					kind = "wire/batch"
+				case call.V == "subscribe":
+					kind = "wire/subscribe"
+				case call.V == "alias":
+					kind = "wire/alias"
+				}
+				c.Correspond(kind+":method-not-found~resolve", sc.Name+" "+tr+" "+call.M+" "+call.V+" ("+rreq+")", bit(call.R != "notfound"), bit(len(rf) > 0 && rf[0] != "notfound"))
 			}
 			if call.D > 0 {
-				// a keystore signing entry point was entered: the static bit must say so
-				sb := signs[call.M]
-				if sb == "" {
-					sb = "unserved"
-				}
+				// a keystore signing entry point was entered: the static bit of the resolved method must say so
 				c.Correspond("keystore counter moved => m_signs", sc.Name+" "+tr+" "+call.M+" "+call.V, "1", sb)
 				if !optedIn {
+					call.Q = call.M
+					call.M = resolvedName
 					if prev, ok := worst[call.M]; !ok || (prev.R != "ok" && call.R == "ok") {
 						worst[call.M] = call
 					}
@@ -737,7 +984,7 @@ func evaluate(c *vh.Ctx, m *vh.Model, sc Scenario, out *ChildOut) {
 			}
 			c.Violate("rpc-unprotected-signer/"+call.M,
 				fmt.Sprintf("%s over %s entered a keystore signing entry point %d time(s) although %s is not set (%s; modules http=%s ws=%s; chain=%s); %s", call.M, tr, call.D, envVars[flagIndex[tr]], envDesc(sc), hm, wm, chainOf(sc), produced),
-				map[string]interface{}{"scenario": sc, "transport": tr, "method": call.M, "variant": call.V, "params": call.P, "result": call.R, "error": call.E, "sign_counter_delta": call.D})
+				map[string]interface{}{"scenario": sc, "transport": tr, "method": map[bool]string{true: call.Q, false: call.M}[call.Q != ""], "variant": call.V, "params": call.P, "result": call.R, "error": call.E, "sign_counter_delta": call.D})
 		}
 	}
 }
